@@ -814,7 +814,7 @@ def gen_c16a(rng: random.Random) -> Dict[str, Any]:
                        gen_json_tree(rng) for i in range(rng.randint(0, 3))},
             # the broker refuses the message (outage): nothing was sent, so the source is not told it was
             "kick_fail": rng.random() < 0.1,
-            "labels": labels, "cancel": rng.random() < 0.3, "pre_async": rng.random() < 0.5,
+            "labels": labels, "cancel": rng.random() < 0.3, "pre_async": rng.random() < 0.5, "overlap": rng.random() < 0.1,
             "post_async": rng.random() < 0.5, "kind": rng.choice(["cron", "time"]),
             "inst_hooks": rng.random() < 0.2, "delegate": rng.random() < 0.2,
             # the scheduled task name may be a registered task with declared labels (own broker), or a shared task
@@ -857,7 +857,14 @@ def run_c16a(spec: Dict[str, Any]) -> "tuple[List[Violation], Any]":
         shared.register_task(fn1, task_name=spec["task_name"], decl=2)
         cleanup_global.append(spec["task_name"])
 
+    overlap = bool(spec.get("overlap")) and not spec["cancel"] and not spec.get("kick_fail")
+
     async def main(loop: Any) -> None:
+        if overlap:
+            # the same schedule fires again while its previous firing is still being sent (slow hooks / a slow broker):
+            # two firings, two messages
+            await asyncio.gather(sch.on_ready(src, task), sch.on_ready(src, task))
+            return
         await sch.on_ready(src, task)
 
     kick_fail = bool(spec.get("kick_fail")) and not spec["cancel"]
@@ -887,6 +894,11 @@ def run_c16a(spec: Dict[str, Any]) -> "tuple[List[Violation], Any]":
     if other.sent:
         v.append(Violation("sent-to-wrong-broker", f"{len(other.sent)} message(s) went to a broker other than the scheduler's"))
     sid = spec["sid"]
+    if overlap:
+        if sorted(rec) != sorted([("pre_send", sid), ("kick", sid), ("post_send", sid)] * 2) or len(broker.sent) != 2:
+            v.append(Violation("callback-sequence", f"two overlapping firings of one schedule: observed {rec} and {len(broker.sent)} message(s), "
+                               "expected pre_send, kick, post_send twice"))
+        return v, rec
     want = [("pre_send", sid)] if spec["cancel"] else [("pre_send", sid), ("kick", sid), ("post_send", sid)]
     if rec != want:
         v.append(Violation("callback-sequence", f"observed {rec}, expected {want} (cancel={spec['cancel']})"))
@@ -1007,6 +1019,7 @@ def gen_c16b(rng: random.Random) -> Dict[str, Any]:
         late = {"name": "lt_late", "cron": rng.choice(CRONS), "time_us": rng.choice(times)}
     return {"mode": "label_source", "tasks": tasks, "fire_seed": rng.randint(0, 10 ** 9), "nfire": nfire,
             "src_startup": rng.random() < 0.5, "late_task": late, "concurrent_list": rng.random() < 0.3,
+            "same_func": rng.random() < 0.2,
             # relist: list again before every firing; otherwise fire several schedules of one listing (what the
             # scheduler loop does when several one-shots are due in the same poll)
             "relist": rng.random() < 0.5,
@@ -1059,9 +1072,13 @@ def run_c16b(spec: Dict[str, Any]) -> "tuple[List[Violation], Any]":
             if e.get("args_tuple") and "args" in d:
                 d["args"] = tuple(d["args"])  # declared as a tuple, as Python programmers write argument lists
             sched.append(d)
-        fn = lambda: None  # noqa: E731
-        fn.__name__ = t["name"]
-        fn.__module__ = "mon.sched_loop"
+        if spec.get("same_func") and "fn_shared" in locals():
+            fn = fn_shared  # one function registered under several task names, each with schedules of its own
+        else:
+            fn = lambda: None  # noqa: E731
+            fn.__name__ = t["name"]
+            fn.__module__ = "mon.sched_loop"
+            fn_shared = fn
         b = {"own": broker, "foreign": foreign, "shared": shared}[t["where"]]
         b.register_task(fn, task_name=t["name"], schedule=sched, **t["extra_labels"])
         if t["where"] == "shared":
